@@ -33,8 +33,26 @@ def scaffold_fields(cls="Scaffold"):
     return ["name", "rows", "tag", "haplotype", "rank", "original_name", "original_tags"]
 
 
-@contract(f"{M}.__init__", kind="init", properties=("C12", "C18", "C14", "C07"))
+def _rank_default(mi, fn):
+    """C20: 'Rank takes precedence over name in output order' and sorting must succeed for scaffolds however they were
+    built: the output order key is (rank, natural key), a tuple comparison that needs every rank to be a number - also the
+    rank of a scaffold constructed without one (the parsers, Scaffold.reverse).  The default is read from the signature."""
+    import ast
+
+    a = fn.args
+    names = [x.arg for x in a.posonlyargs + a.args]
+    defaults = dict(zip(names[len(names) - len(a.defaults):], a.defaults))
+    defaults.update({x.arg: d for x, d in zip(a.kwonlyargs, a.kw_defaults) if d is not None})
+    d = defaults.get("rank")
+    ok = isinstance(d, ast.Constant) and isinstance(d.value, int) and not isinstance(d.value, bool)
+    return [("post", "a-scaffold-built-without-a-rank-has-a-numeric-rank", [], z3.BoolVal(ok))]
+
+
+@contract(f"{M}.__init__", kind="init", properties=("C12", "C18", "C14", "C07", "C20"))
 class _:
+    custom = staticmethod(_rank_default)
+    also_verify = True
+    escalate = ("C12", "C18", "C14", "C07")
     params = {
         "self": SC,
         "name": STR,
